@@ -211,6 +211,30 @@ def classify_while(ctx: Ctx, f: Func, loop: ast.While) -> Tuple[str, str]:
                      and isinstance(n.value, ast.Call) and attr_tail(n.value) == "read"]
             if reads and _every_iteration_passes(f, loop, reads):
                 return "V3", "loop variable re-read from the source on every iteration (ends at source EOF)"
+            # V7: a work list `while L:` - every iteration takes one item off (`L.pop()`), and items are put on only behind a counter test
+            # that leaves the function (`n += 1; if n > CONST: return`): at most CONST refills of finitely many items each
+            w = test.id
+            pops = [n for n in body_nodes if isinstance(n, (ast.Assign, ast.Expr)) and isinstance(n.value, ast.Call) and attr_tail(n.value) == "pop"
+                    and norm(n.value.func.value) == w and not n.value.args]
+            puts_ = [n for n in body_nodes if isinstance(n, ast.Expr) and isinstance(n.value, ast.Call) and attr_tail(n.value) in ("extend", "append", "insert")
+                     and norm(n.value.func.value) == w]
+            other = [n for n in body_nodes if isinstance(n, (ast.Assign, ast.AugAssign)) and any(isinstance(t, ast.Name) and t.id == w for t in (n.targets if isinstance(n, ast.Assign) else [n.target]))]
+            if pops and not other and _every_iteration_passes(f, loop, pops):
+                cfg = cfg_of(f.node)
+                def counted(p) -> bool:
+                    pn = q.node_for(f, p)
+                    for t in cfg.nodes:
+                        if t.kind == "test" and isinstance(t.ast, ast.Compare) and len(t.ast.ops) == 1 and isinstance(t.ast.ops[0], (ast.Gt, ast.GtE)) and isinstance(t.ast.left, ast.Name) \
+                                and cfg.dominates(t, pn) and any(e.kind == "true" and not cfg.reaches(e, pn) for e in t.succ):
+                            c = t.ast.left.id
+                            incs = [n for n in body_nodes if isinstance(n, ast.AugAssign) and isinstance(n.op, ast.Add) and isinstance(n.target, ast.Name) and n.target.id == c
+                                    and isinstance(n.value, ast.Constant) and isinstance(n.value.value, int) and n.value.value > 0]
+                            bound_const = isinstance(t.ast.comparators[0], ast.Constant) or isinstance(t.ast.comparators[0], ast.Name) and t.ast.comparators[0].id.isupper()
+                            if incs and bound_const and any(cfg.dominates(q.node_for(f, i), pn) for i in incs):
+                                return True
+                    return False
+                if all(counted(p) for p in puts_):
+                    return "V7", f"work list `{w}`: one item taken off per iteration, refilled at most a constant number of times (counter test leaves the function)"
         return "", f"unrecognised loop condition {norm(test)}"
     var, direction = lv
     if direction == "down":
